@@ -178,3 +178,148 @@ def _mk(note, metadata):
 
 
 CONTRACTS = [_mk("fresh producer", {}), _mk("producer already named", {"declared_name": "earlier"})]
+
+
+# =================================================================================================
+# StatementLowerer.lower_assign_stmt (C06 for `entity.prop = expr`, C20 for `name = expr`):
+#   entity.prop = expr   exactly ONE property write is added, for the entity the NAME denotes (its id in entity_refs), on that
+#                        property, carrying what expr lowers to (lowered once); `entity.enable = any/all(bundle) CMP constant` is
+#                        handed to the inlining path with that entity's id instead, and nothing else is added
+#   name = expr          the name is re-bound to what expr lowers to; a constant producer becomes a declared input, a bundle's
+#                        producer is kept; an integer becomes a declared constant node with that value
+# (assignments from calls — place(...), functions — are the entity bookkeeping path: not covered here.)
+# =================================================================================================
+AS = {}
+
+
+def _isinst(ex, v, cls):
+    from pyvc.values import ClassRef
+    t = ex.isinstance_(v, ClassRef(cls))
+    return t if isinstance(t, bool) else ex.branch(t)
+
+
+def _as_reset(a):
+    AS.clear(), CONSTS.clear(), ANNOTATED.clear()
+    return True
+
+
+def _as_lower(ex, a):
+    AS.setdefault("lowered", []).append(a.args[0])
+    return ghost(a.args[0], "lowered", _LOWERED)
+
+
+def _as_add(ex, a):
+    AS.setdefault("added", []).append(a.args[0])
+    return None
+
+
+def _as_inline(ex, a):
+    AS.setdefault("inlined", []).append((a.entity_id, a.expr, a.stmt))
+    return None
+
+
+def _as_get_op(ex, a):
+    stmt = ex.args_ns.stmt
+    lowered = stmt.value._fields.get("@lowered")
+    if isinstance(lowered, SObj) and a.args[0] is lowered.source_id:
+        node = lowered._fields.get("@producer")
+        if node is None:
+            node = SObj(list(_PRODUCERS), fresh_name("producer"), lazy=True)
+            node._fields["debug_metadata"] = {}
+            lowered._fields["@producer"] = node
+        return node
+    for ref, node in CONSTS:
+        if a.args[0] is ref.source_id:
+            return node
+    raise NotImplementedError("lookup of another node")
+
+
+def _as_prop_post(a, res):
+    stmt = a.stmt
+    refs = a.self.parent.entity_refs
+    name, prop = stmt.target.object_name, stmt.target.property_name
+    known = z3.Select(refs.present, name)
+    eid = z3.Select(refs.vals, name)
+    inlined, added, lowered = AS.get("inlined", []), AS.get("added", []), AS.get("lowered", [])
+    inl = stmt.value._fields.get("@inlinable")
+    if inlined:
+        return And(known, prop == "enable", inl if inl is not None else False, len(inlined) == 1 and inlined[0][1] is stmt.value and inlined[0][2] is stmt, inlined[0][0] == eid,
+                   not added and not lowered)
+    if len(lowered) != 1 or lowered[0] is not stmt.value:
+        return False
+    v = stmt.value._fields.get("@lowered")
+    not_inline = Not(And(prop == "enable", inl)) if inl is not None else True
+    if not added:
+        return Not(known)
+    w = added[0]
+    return And(known, not_inline, len(added) == 1, isa(w, "IREntityPropWrite"), w.entity_id == eid, w.property_name is prop, w.value is v)
+
+
+_VALUE_T = ty.TObj("Expr", only=("BinaryOp", "IdentifierExpr", "NumberLiteral", "SignalLiteral"))
+_AS_USES = {"opaque.lower_expr": Contract(qualname="dsl_compiler/src/lowering/expression_lowerer.py::ExpressionLowerer.lower_expr", params={"args": _OPQ}, effect=_as_lower, verify=False,
+                                          note="the lowered value of the right-hand side"),
+            "opaque.add_operation": Contract(qualname="dsl_compiler/src/ir/builder.py::IRBuilder.add_operation", params={"args": _OPQ}, effect=_as_add, verify=False, note="appends the node to the IR (recorded)"),
+            "opaque.get_operation": Contract(qualname="dsl_compiler/src/ir/builder.py::IRBuilder.get_operation", params={"args": _OPQ}, effect=_as_get_op, verify=False, note="the producer node of the reference"),
+            "opaque.const": Contract(qualname="dsl_compiler/src/ir/builder.py::IRBuilder.const", params={"args": _OPQ}, effect=lambda ex, a: _const(ex, type("NS", (), {"signal_type": a.args[0], "value": a.args[1]})()),
+                                     verify=False, note="verified separately (contracts.c02 IRBuilder.const)"),
+            "opaque.allocate_implicit_type": Contract(qualname="dsl_compiler/src/ir/builder.py::IRBuilder.allocate_implicit_type", params={"args": _OPQ}, effect=_implicit, verify=False, note="fresh implicit type name"),
+            "opaque.lookup": Contract(qualname="dsl_compiler/src/semantic/symbol_table.py::SymbolTable.lookup", params={"args": _OPQ}, effect=_lookup, verify=False, note="the declared symbol"),
+            "fn:get_signal_type_name": Contract(qualname="dsl_compiler/src/semantic/type_system.py::get_signal_type_name", params={"value_type": _OPQ}, effect=_type_name, verify=False, note="three-line accessor"),
+            "StatementLowerer._is_inlinable_bundle_condition": Contract(qualname=SL + "_is_inlinable_bundle_condition", params={"self": _OPQ, "expr": _OPQ},
+                                                                        effect=lambda ex, a: (ghost(a.expr, "inlinable", ty.Bool) if _isinst(ex, a.expr, "BinaryOp") else False), verify=False,
+                                                                        note="any()/all() of a bundle compared with a constant (only a BinaryOp can be one)"),
+            "StatementLowerer._lower_inlined_bundle_condition": Contract(qualname=SL + "_lower_inlined_bundle_condition", params={"self": _OPQ, "entity_id": _OPQ, "expr": _OPQ, "stmt": _OPQ, "value_ref": _OPQ},
+                                                                         effect=_as_inline, verify=False, note="records the inlined condition on the entity"),
+            "ASTLowerer.push_expr_context": "skip", "ASTLowerer.pop_expr_context": "skip",
+            "ASTLowerer.annotate_signal_ref": Contract(qualname="dsl_compiler/src/lowering/lowerer.py::ASTLowerer.annotate_signal_ref", params={"self": _OPQ, "name": _OPQ, "ref": _OPQ, "node": _OPQ},
+                                                       effect=lambda ex, a: ANNOTATED.append((a.name, a.ref)), verify=False, note="debug annotation of the binding (recorded)")}
+_AS_DYN = {"self": {"parent": ty.TObj("ASTLowerer", only=("ASTLowerer",)), "ir_builder": ty.TOpaque("builder"), "semantic": ty.TObj("SemanticAnalyzer", only=("SemanticAnalyzer",))},
+           "self.parent": {"signal_refs": ty.TObjMap(ty.Str, ty.TObj("SignalRef", only=("SignalRef",))), "expr_lowerer": ty.TOpaque("expr_lowerer"), "diagnostics": ty.TOpaque("diag"),
+                           "entity_refs": ty.TDict(ty.Str, ty.Str)},
+           "self.semantic": {"symbol_table": ty.TOpaque("symbols")}}
+
+CONTRACTS.append(Contract(
+    qualname=SL + "lower_assign_stmt",
+    params={"self": ty.TObj("StatementLowerer", only=("StatementLowerer",)),
+            "stmt": ty.TObj("AssignStmt", only=("AssignStmt",), ftypes=(("target", ty.TObj("PropertyAccess", only=("PropertyAccess",), ftypes=(("object_name", ty.Str), ("property_name", ty.Str)))),
+                                                                         ("value", _VALUE_T)))},
+    requires=[("(reset capture)", _as_reset)],
+    ensures=[("one property write for the entity the name denotes, on that property, with the lowered value — or the inlined bundle condition for that entity; nothing for an unknown entity", _as_prop_post)],
+    uses=_AS_USES, dynamic_types=_AS_DYN, properties=("C06",), min_obligations=3, no_replay=True, note="entity.property = expression"))
+
+
+def _as_name_post(a, res):
+    stmt = a.stmt
+    name = stmt.target.name
+    refs = a.self.parent.signal_refs
+    hits = [v for k, v in refs.__dict__.get("stores", []) if k is name]
+    bound = hits[-1] if hits else None
+    lowered_calls = AS.get("lowered", [])
+    if len(lowered_calls) != 1 or lowered_calls[0] is not stmt.value or AS.get("added"):
+        return False
+    v = stmt.value._fields.get("@lowered")
+    if isinstance(v, SObj):
+        node = v._fields.get("@producer")
+        md = node._fields.get("debug_metadata") if node is not None else None
+        cs = [bound is v]
+        if "BundleRef" in v._cls_set:
+            cs.append(md is not None and md.get("user_declared") is True and node.debug_label is name)
+        elif md is not None and isa(node, "IRConst") is True:
+            cs.append(md.get("user_declared") is True and node.debug_label is name)
+        elif md is not None and isa(node, "IRConst") is False:
+            cs.append("user_declared" not in md)
+        return And(*[x if not isinstance(x, bool) else z3.BoolVal(x) for x in cs])
+    if len(CONSTS) != 1:
+        return False
+    ref, node = CONSTS[0]
+    return bound is ref and node.value is v and node._fields["debug_metadata"].get("user_declared") is True and node._fields["debug_metadata"].get("declared_name") is name
+
+
+CONTRACTS.append(Contract(
+    qualname=SL + "lower_assign_stmt",
+    params={"self": ty.TObj("StatementLowerer", only=("StatementLowerer",)),
+            "stmt": ty.TObj("AssignStmt", only=("AssignStmt",), ftypes=(("target", ty.TObj("Identifier", only=("Identifier",), ftypes=(("name", ty.Str),))), ("value", _VALUE_T)))},
+    requires=[("(reset capture)", _as_reset)],
+    ensures=[("the name is re-bound to the lowered value; a constant producer becomes a declared input, a bundle's producer is kept, an integer becomes a declared constant with that value",
+              _as_name_post)],
+    uses=_AS_USES, dynamic_types=_AS_DYN, properties=("C20", "C02"), min_obligations=3, no_replay=True, note="name = expression"))
